@@ -167,6 +167,31 @@ def corpus_reactions(kind="reaction"):
 # ---------------------------------------------------------------------------- batches
 
 
+IDMIX = [
+    "CC(=O)O.CCO>>CC(=O)OCC.O",                      # balanced
+    "CC=O>>CCO",                                     # rule-based (H2)
+    "CCBr.[OH-]>>CCO",                               # rule-based (bromide)
+    "CC(=O)OCC>>CC(=O)O",                            # MCS
+    "C=CC=C.C=CC(=O)OC>>COC(=O)C1CC=CCC1",           # balanced
+    "CC(=O)Cl.NCc1ccccc1>>CC(=O)NCc1ccccc1",         # rule-based (HCl)
+]
+
+
+def ids_universes():
+    """dict rows that bring their own id column (1-based, reversed, textual) in every rotation of a mixed list,
+    as one batch and with batch_size 2: a row's result must not depend on the id it was given"""
+    us = []
+    n = len(IDMIX)
+    for kind in ("onebased", "reversed", "text"):
+        for rot in range(n):
+            rx = IDMIX[rot:] + IDMIX[:rot]
+            ident = {"onebased": lambda i: i + 1, "reversed": lambda i: n - 1 - i, "text": lambda i: "R{}".format(100 + i)}[kind]
+            rows = [{"reaction": r, "id": ident(i), "note": "row {}".format(i)} for i, r in enumerate(rx)]
+            for bs in (None, 2):
+                us.append(("own ids {} rot {} bs {}".format(kind, rot, bs), rows, {"batch_size": bs} if bs else {}, n))
+    return us
+
+
 def make_specs(rxns, batch=20, **cfg):
     """Split a reaction list into pipeline runs of `batch` rows (one Balancer.rebalance
     call each)."""
